@@ -197,6 +197,32 @@ class SBool:
     def __hash__(self):
         raise Unsupported("hash of symbolic bool")
 
+    # a bool is an int: order and arithmetic go through the 0/1 value
+    def _i(self):
+        return SInt(zint(self))
+
+    def __lt__(self, o):
+        return self._i() < o
+
+    def __le__(self, o):
+        return self._i() <= o
+
+    def __gt__(self, o):
+        return self._i() > o
+
+    def __ge__(self, o):
+        return self._i() >= o
+
+    def __add__(self, o):
+        return self._i() + o
+
+    __radd__ = __add__
+
+    def __int__(self):
+        return 1 if bool(self) else 0
+
+    __index__ = __int__
+
     def __repr__(self):
         return f"SBool({self.e})"
 
